@@ -9,6 +9,7 @@ RATIONAL_KERNELS = ("uniform", "triangular", "epanechnikov")
 TABLE_KERNELS = ("gaussian", "exponential", "cubic", "spheric")
 OBJ_KERNELS = RATIONAL_KERNELS + TABLE_KERNELS + ("dirac",)
 NAN = float("nan")
+_PRISTINE = None
 
 
 def num(v):
@@ -26,8 +27,30 @@ def canon(x):
 # generator-side description of the kernels (only used to keep generated cases inside the property's
 # domain: every window must keep a positive total weight on its valid samples)
 # ------------------------------------------------------------------------------------------------
+USER_TYPES = ("i", "f", "F", "I", "b", "h")   # Python int / float, numpy float64 / int64, bool, numpy float32
+USERFN_SHAPES = ("tent", "box", "cond", "bell")
+FILTER_CONSTS = {"FILTER_X": ["x"], "FILTER_Y": ["y"], "FILTER_Z": ["z"], "FILTER_XY": ["x", "y"],
+                 "FILTER_XZ": ["x", "z"], "FILTER_YZ": ["y", "z"], "FILTER_XYZ": ["x", "y", "z"]}
+
+
+def userfn_value(shape, p, x):
+    """the closed forms of the user-defined kernel functions of the 'userfn' kernels (property side, floats)"""
+    a = abs(x)
+    if shape == "tent":
+        return max(0.0, 1 - a / p)
+    if shape == "box":
+        return 1.0 if a <= p else 0.0
+    if shape == "cond":
+        return 0.0 if a > p else (p - a) / p ** 2
+    if shape == "bell":
+        return 0.0 if a >= p else (1 - (a / p) ** 2) ** 2
+    raise ValueError(shape)
+
+
 def support_of(k):
     t, p = k["t"], k.get("p")
+    if t in ("user", "userfn"):
+        return k["s"]
     return {"uniform": lambda: 2 * p, "triangular": lambda: 1.5 * p, "epanechnikov": lambda: 1.5 * p,
             "gaussian": lambda: 3 * p, "exponential": lambda: 3 * p, "cubic": lambda: p, "spheric": lambda: p}[t]()
 
@@ -41,6 +64,12 @@ def shape_weights(k):
         return [Fraction(1)] * max(0, k["n"])
     if t == "dirac":
         return [Fraction(0), Fraction(1), Fraction(0)]
+    if t == "user":
+        S = int(k["s"])
+        return [Fraction(k["tbl"][abs(x)][1]) if abs(x) < len(k["tbl"]) else Fraction(0) for x in range(S, -S - 1, -1)]
+    if t == "userfn":
+        S = int(k["s"])
+        return [Fraction(userfn_value(k["shape"], k["p"], x)) if abs(x) <= k["s"] else Fraction(0) for x in range(S, -S - 1, -1)]
     p = k["p"]
     S = int(support_of(k))
     out = []
@@ -100,8 +129,9 @@ def mean_oracle(w, v, fb):
     return out
 
 
-def check_signal(w, v, fb, got, what):
-    """compare an output signal of the implementation with the property (mean, bounds, constants, boundary)"""
+def check_signal(w, v, fb, got, what, skip_undefined=False):
+    """compare an output signal of the implementation with the property (mean, bounds, constants, boundary);
+    skip_undefined: an index whose valid weights sum to 0 has no weighted mean — nothing is demanded there"""
     n, D = len(v), len(w) // 2
     if not isinstance(got, list) or len(got) != n:
         return "%s: output has %s values for %d inputs" % (what, len(got) if isinstance(got, list) else got, n)
@@ -113,6 +143,8 @@ def check_signal(w, v, fb, got, what):
     for i in range(n):
         e, g = want[i], got[i]
         if e == "undefined":
+            if skip_undefined:
+                continue
             return "%s: window %d has no valid weight (case outside the property's domain)" % (what, i)
         if e is None:
             if g is not None:
@@ -163,55 +195,107 @@ class P(Prop):
         (M, "TV.C15.window_shape", "T5: toSlidingWindow has 2*floor(support)+1 values (odd), w[size-1-i] = w[i] for an even kernel function, and sums to 1"),
         (M, "TV.C15.window_nonneg", "T5': a kernel function non-negative at the sample points and positive at 0 gives a positive raw sum and a non-negative window with positive centre weight"),
         (M, "TV.C15.builtin_kernels", "the Uniform/Triangular/Epanechnikov kernel functions of kernel.py are even, non-negative, positive at 0"),
-        (M, "TV.C15.filterSeq_is_mean", "filter_seq (and Track.smooth): every listed coordinate/feature becomes the mean signal of its former values, same window for all dimensions despite the in-place normalisation; other signals except 'temp' untouched"),
+        (M, "TV.C15.window_of_nonneg_kernel", "T5 for any kernel object: even function, non-negative at the sample points S..-S, positive at one of them (0 at the support edge allowed), int(support) <= support: the window is odd, symmetric, sums to 1, non-negative"),
+        (M, "TV.C15.window_zero_sum_fails", "a kernel whose sampled values sum to 0 makes toSlidingWindow fail with a division by zero, never a window of NaN"),
+        (M, "TV.C15.user_kernel_window", "a user-defined kernel (Kernel + setFunction) given by non-negative values at |x| = 0,1,2,.. with a positive one inside the support has an odd, symmetric, non-negative window summing to 1"),
+        (M, "TV.C15.user_kernel_zero_fails", "a user-defined kernel that is 0 at every sample point makes toSlidingWindow fail"),
+        (M, "TV.C15.builtin_kernel_windows", "Uniform/Triangular/Epanechnikov kernels of any positive size with support >= 1 (boundary sizes included): odd, symmetric, non-negative window summing to 1"),
+        (M, "TV.C15.list_zero_weights", "a non-negative weight list with zero weights: where the valid weights of a window sum to 0 all of them are 0 (no weighted mean exists) and the output is NaN, elsewhere it is the renormalised mean; boundaries copied; the call succeeds when every window holds a valid sample"),
+        (M, "TV.C15.list_no_sample_fails", "a weight list on a signal one of whose windows holds no valid sample fails with a division by zero"),
+        (M, "TV.C15.operate_is_mean", "T1 for track.operate(Operator.FILTER, af_in, kernel, af_out): the mean signal is returned and stored under af_out (created if needed), nothing else changes"),
+        (M, "TV.C15.feature_kernel_is_list", "a kernel given as the name of a feature/coordinate without NaN is the list of its values (fresh list: the feature is not normalised)"),
+        (M, "TV.C15.operate_refusals", "a reserved output name, then an empty track, are refused after the kernel has been prepared and found odd"),
+        (M, "TV.C15.filterSeq_is_mean", "filter_seq: every listed coordinate/feature of a non-empty track becomes the mean signal of its former values, same window for all dimensions despite the in-place normalisation; other signals except 'temp' untouched"),
         (M, "TV.C15.filterSeq_int", "filter_seq with an int n uses [1]*n; n = 1 or a one-element list returns the track unchanged"),
+        (M, "TV.C15.dim_dispatch", "dim omitted = FILTER_XYZ = x,y,z; FILTER_X..FILTER_XYZ mean what their names say; a list is taken as is; a str is walked character by character; the module-level state is returned unchanged"),
+        (M, "TV.C15.session_independent", "calls made one after the other in one process give what each gives alone and leave FILTER_X..FILTER_XYZ and Kernel.__filter_boundary as they were"),
+        (M, "TV.C15.smooth_is_mean", "Track.smooth(width) = filter_seq(GaussianKernel(width)) on x,y,z with boundaries copied: each coordinate becomes its mean signal, features untouched"),
         (M, "TV.C15.dirac_identity", "the Dirac kernel ([0,1,0]) returns a NaN-free signal unchanged"),
-        (M, "TV.C15.zero_norm_fails", "outside the domain (a zero norm) the method fails with a division by zero, never a wrong value"),
+        (M, "TV.C15.zero_norm_fails", "outside the domain (a zero norm) the method fails with a division by zero for a Kernel object, never a wrong value"),
     ]
     partial = []
     open_statements = ["theorems are over a linearly ordered field: IEEE rounding of the float computation is outside them (sampled by the transfer check at 1e-9)",
-                       "the kernel functions using math.exp / math.pow (Gaussian, Exponential, Cubic, Spheric) are a function parameter: window_shape / window_nonneg "
-                       "apply to them under the stated hypotheses (even, non-negative at the sample points, positive at 0), which are not proved for libm",
-                       "a weight list containing zero weights whose valid weights sum to 0 (numpy then yields nan/inf instead of raising) is not modelled; with positive weights a zero norm means no valid sample and both sides raise",
-                       "a kernel given as the name of an analytical feature (str) is not modelled"]
-    modelled = ("Filter.execute (kernel preparation for weight lists / Kernel objects / Dirac, odd-window test, window index i-j+D, "
-                "skipping out-of-track and NaN samples, division by the collected norm, boundary copy), Kernel.evaluate and "
-                "Kernel.toSlidingWindow, the kernel functions of UniformKernel/TriangularKernel/EpanechnikovKernel (the other "
-                "kernel functions are a function parameter tabulated by Python), filter_seq (int kernel, one-element list, "
-                "x/y/z through the feature 'temp', in-place renormalisation of the weight list at every dimension), Track.smooth")
-    trusted = ["kernel functions using math.exp / math.pow (Gaussian, Exponential, Cubic, Spheric) are a parameter of the model: "
+                       "the kernel functions using math.exp / math.pow (Gaussian, Exponential, Cubic, Spheric) and closed-form user functions are a function parameter: "
+                       "window_shape / window_of_nonneg_kernel apply to them under the stated hypotheses (even, non-negative at the sample points, positive at one), which are not proved for libm",
+                       "a weight list whose total sum is 0, weights that are NaN (a feature-name kernel over a feature with NaN) or negative are not modelled (numpy yields nan/inf); "
+                       "a float given as kernel to filter_seq (documented, but a TypeError in the code) is not modelled",
+                       "values read back as numpy scalars by a later call on the same track change ZeroDivisionError into nan outside the domain: sessions use one track per call"]
+    modelled = ("Filter.execute (kernel preparation for weight lists / Kernel objects / Dirac / feature names, odd-window test, window index i-j+D, "
+                "skipping out-of-track and NaN samples, division by the collected norm incl. the int/float/numpy cases of a zero norm, boundary copy), "
+                "Track.operate(Operator.FILTER, af_in, kernel, af_out) with createAnalyticalFeature (reserved names, empty track, new output feature), "
+                "Kernel.evaluate and Kernel.toSlidingWindow (zero sum included), the kernel functions of UniformKernel/TriangularKernel/EpanechnikovKernel, "
+                "user-defined kernels given by a table of values (the other kernel functions are a function parameter tabulated by Python), "
+                "filter_seq (int kernel, one-element list, dispatch on dim: default / module constant / list / str, x/y/z through the feature 'temp', "
+                "in-place renormalisation of the weight list at every dimension), Track.smooth, sessions of calls threading the module-level state")
+    trusted = ["kernel functions using math.exp / math.pow (Gaussian, Exponential, Cubic, Spheric) and closed-form user functions are a parameter of the model: "
                "their values at the model's sample points are tabulated by the real Python function",
                "np.sum is modelled as a left-to-right sum; int(support) as floor"]
     rule = ("signals random-integer / dyadic / float / constant / monotone, with isolated NaN, length window..window+12; kernels: odd weight "
             "lists with positive weights (symmetric and asymmetric, integer/dyadic/decimal), integers (filter_seq), the built-in "
-            "non-negative kernels Uniform/Triangular/Epanechnikov/Gaussian/Exponential/Cubic/Spheric/Dirac with widths 1..5 and "
-            "some non-integer widths, both boundary settings; features via track.operate(FILTER), x/y/z and features via filter_seq, "
-            "Track.smooth, Kernel.toSlidingWindow. All signals over {0,1,NaN} up to length 6 (quick) / 7 (thorough) for three kernels. Cases outside the "
-            "property's domain are kept in two correspondence-only streams: 'zeronorm' (a window without valid weight: ZeroDivisionError on both sides) and "
-            "'short' (signals shorter than the window, IndexError when shorter than the half window and boundaries are copied). non-trivial = window of "
+            "non-negative kernels Uniform/Triangular/Epanechnikov/Gaussian/Exponential/Cubic/Spheric/Dirac with widths 1..5, boundary and "
+            "non-integer widths, user-defined kernels (Kernel + setFunction) returning Python ints / floats / bools / numpy scalars from a table or a closed form "
+            "(0 at the support edge or not), filterBoundary set to True / False / never set; features via track.operate(FILTER) incl. output into an existing / the same / a new feature "
+            "and kernels given as feature names, x/y/z and features via filter_seq with dim omitted / a module constant / a list / a str, "
+            "Track.smooth, Kernel.toSlidingWindow; sessions of 2-4 calls (filter_seq, Track.smooth, filter_freq) in one process on different tracks, some with an all-NaN "
+            "coordinate or no observation, the module constants and Kernel class attributes being read after every call. All signals over {0,1,NaN} up to length 6 (quick) / 7 (thorough) "
+            "for three kernels; all user tables of length <= 3 over five typed values for supports 1..3. Cases outside the "
+            "property's domain are kept in correspondence-only streams: 'zeronorm' (a window without valid weight), "
+            "'short' (signals shorter than the window), 'badk' (even / empty windows, support < 1, zero-sum kernels, reserved or unknown names, empty tracks); "
+            "'zerow' (weight lists with zero weights) is judged at the indices whose valid weights have a positive sum. non-trivial = window of "
             "at least 3 weights and a non-constant signal (or a sliding-window case)")
 
     def setup(self):
         import warnings
         warnings.filterwarnings("ignore")
+        import numpy as np
         from tracklib.core.track import Track
         from tracklib.core.obs import Obs
         from tracklib.core.obs_coords import ENUCoords
         from tracklib.core.obs_time import ObsTime
         from tracklib.core.operators import Operator
         from tracklib.core import kernel as K
-        from tracklib.algo.filtering import filter_seq
-        self.Track, self.Obs, self.ENU, self.ObsTime, self.Operator, self.K = Track, Obs, ENUCoords, ObsTime, Operator, K
-        self.filter_seq = filter_seq
+        from tracklib.algo import filtering as F
+        self.np = np
+        self.Track, self.Obs, self.ENU, self.ObsTime, self.Operator, self.K, self.F = Track, Obs, ENUCoords, ObsTime, Operator, K, F
         self.t0 = ObsTime.readUnixTime(0)
+        # the module-level state a call can read, as it is in a fresh process: taken once per process tree (the engine
+        # calls setup() again in worker processes that have already run cases)
+        global _PRISTINE
+        if _PRISTINE is None:
+            _PRISTINE = ({n: list(getattr(F, n)) for n in FILTER_CONSTS},
+                         {a: getattr(K.Kernel, a) for a in ("_Kernel__filter_boundary", "_Kernel__kernel_function", "_Kernel__support")})
+        self.pristine_consts, self.pristine_kattr = _PRISTINE
+        self.restore_globals()
+
+    # ---------------------------------------------------------------- module-level state
+    def restore_globals(self):
+        """every case starts from the state of a fresh process (what an earlier case left must not leak into a replay)"""
+        for n, v in self.pristine_consts.items():
+            getattr(self.F, n)[:] = v
+        for a, v in self.pristine_kattr.items():
+            setattr(self.K.Kernel, a, v)
+
+    def globals_now(self):
+        d = {n: list(getattr(self.F, n)) for n in FILTER_CONSTS}
+        d["Kernel.filter_boundary"] = getattr(self.K.Kernel, "_Kernel__filter_boundary")
+        d["Kernel.kernel_function"] = "None" if getattr(self.K.Kernel, "_Kernel__kernel_function") is None else "set"
+        d["Kernel.support"] = "None" if getattr(self.K.Kernel, "_Kernel__support") is None else "set"
+        return d
 
     # ---------------------------------------------------------------- generators
     WIDTHS = [1, 2, 3, 4, 5, 1.5, 2.5, 1.25, 3.75]
+    # the smallest sizes whose support is still >= 1, and sizes around the steps of int(support)
+    BOUNDARY_WIDTHS = {"uniform": [0.5, 0.75, 1], "triangular": [0.75, 1, 1.5], "epanechnikov": [0.75, 1, 1.5],
+                       "gaussian": [0.5, 0.75, 1], "exponential": [0.5, 0.75, 1], "cubic": [1, 1.5, 2], "spheric": [1, 1.5, 2]}
+    USER_ALPHABET = [["i", 0], ["i", 1], ["f", 0.5], ["f", 0.0], ["F", 0.25]]
 
     def exhaustive_scopes(self, tier):
         m = 7 if tier == "thorough" else 6
         return ["every signal over {0, 1, NaN} of length 3..%d inside the domain, for the weight list [1,2,5], UniformKernel(1) "
-                "with and without boundary filtering" % m]
+                "with and without boundary filtering" % m,
+                "the sliding window of every user-defined kernel whose table has 1..3 values among int 0, int 1, float 0.5, float 0.0, numpy 0.25, "
+                "for the supports 1, 1.5, 2, 2.5, 3",
+                "the sliding window of every built-in kernel class at its boundary sizes (smallest support >= 1) and at the widths 1..5, 6, 7.5, 10"]
 
     def rand_weights(self, rng):
         D = rng.choice([0, 1, 1, 1, 2, 2, 3, 4])
@@ -230,19 +314,58 @@ class P(Prop):
             w = h + h[-2::-1]
         return w
 
+    def rand_fb(self, rng):
+        return rng.choice([True, False, True, False, None])
+
+    def rand_user(self, rng):
+        """a user-defined kernel: a table of typed non-negative values at |x| = 0, 1, 2, ... (0 beyond), positive somewhere inside the support"""
+        if rng.random() < 0.3:
+            shape = rng.choice(USERFN_SHAPES)
+            p = rng.choice([1, 1.5, 2, 2.5, 3, 4])
+            s = rng.choice([p, p + 0.5, 1.5 * p, max(1, p - 0.5)])
+            if shape == "bell" and p <= 1:
+                p = 2
+            return {"t": "userfn", "shape": shape, "p": p, "s": max(1, s), "fb": self.rand_fb(rng)}
+        L = rng.randrange(1, 5)
+        tbl = []
+        for a in range(L):
+            ty = rng.choice(USER_TYPES)
+            if ty in ("i", "I"):
+                val = rng.choice([0, 0, 1, 1, 2, 3])
+            elif ty == "b":
+                val = rng.choice([0, 1])
+            else:
+                val = rng.choice([0.0, 0.125, 0.25, 0.5, 0.5, 0.75, 1.0, 1.5])
+            tbl.append([ty, val])
+        if rng.random() < 0.5:
+            tbl.append([rng.choice(["i", "i", "f", "I", "b"]), 0])        # 0 at the edge
+        S = rng.choice([max(1, len(tbl) - 2), len(tbl) - 1 if len(tbl) > 1 else 1, len(tbl), len(tbl) + 1])
+        s = S + rng.choice([0, 0, 0.5, 0.25])
+        k = {"t": "user", "tbl": tbl, "s": s, "fb": self.rand_fb(rng)}
+        if rng.random() < 0.5:
+            k["setf"] = False      # the constructor alone, no setFunction afterwards (fix 91685d1)
+        if sum(shape_weights(k)) <= 0:
+            k["tbl"][0] = ["f", 0.5]
+        return k
+
     def rand_kernel(self, rng, allow_int=False):
         r = rng.random()
         if allow_int and r < 0.12:
             return {"t": "int", "n": rng.choice([1, 3, 3, 5, 7])}
-        if r < 0.5:
+        if r < 0.45:
             return {"t": "list", "w": self.rand_weights(rng)}
+        if r < 0.6:
+            return self.rand_user(rng)
         t = rng.choice(OBJ_KERNELS)
         if t == "dirac":
-            return {"t": "dirac", "fb": rng.random() < 0.5}
-        return {"t": t, "p": rng.choice(self.WIDTHS), "fb": rng.random() < 0.5}
+            return {"t": "dirac", "fb": self.rand_fb(rng)}
+        p = rng.choice(self.WIDTHS) if rng.random() < 0.85 else rng.choice(self.BOUNDARY_WIDTHS[t])
+        return {"t": t, "p": p, "fb": self.rand_fb(rng)}
 
     def rand_signal(self, rng, n, style=None, nan=True, floats=False):
         style = style or rng.choice(["int", "int", "const", "mono", "dyadic", "float" if floats else "int", "spike"])
+        if n == 0:
+            return []
         if style == "int":
             v = [rng.randrange(-50, 51) for _ in range(n)]
         elif style == "const":
@@ -271,6 +394,57 @@ class P(Prop):
                 i += rng.randrange(2, 7)
         return v
 
+    def rand_dim(self, rng, names):
+        """(how, dims, const): the `dim` argument of filter_seq and the names it means"""
+        r = rng.random()
+        if r < 0.3:
+            return "default", ["x", "y", "z"], None
+        if r < 0.5:
+            c = rng.choice(sorted(FILTER_CONSTS))
+            return "const", list(FILTER_CONSTS[c]), c
+        if r < 0.6:
+            return "str", rng.choice([["x"], ["y"], ["z"], ["x", "y"], ["y", "x"], ["x", "z"], ["z", "y", "x"], ["x", "y", "z"]]), None
+        dims = rng.choice([["x", "y", "z"], ["x", "y"], ["y", "z"], ["x"], ["y"], ["z"],
+                           [rng.choice(names)], rng.sample(names, rng.randrange(1, len(names) + 1))])
+        return "list", dims, None
+
+    def rand_seq(self, rng, session=False):
+        """one call of filter_seq (None when the draw falls outside the property's domain and session is False)"""
+        k = self.rand_kernel(rng, allow_int=True)
+        w = shape_weights(k)
+        n = max(1, len(w)) + rng.choice([0, 1, 2, rng.randrange(0, 10)])
+        sc = self.pick_scalar(rng, k)
+        empty = session and rng.random() < 0.08
+        if empty:
+            n = 0
+        sigs = {nm: self.rand_signal(rng, n, nan=(rng.random() < 0.3), floats=(sc == "f")) for nm in ("x", "y", "z")}
+        if session and n and rng.random() < 0.3:
+            sigs[rng.choice(["z", "z", "x", "y"])] = [None] * n          # a coordinate without any valid value (2D data)
+        feats = {}
+        if n:
+            for nm in ("a", "b")[:rng.randrange(0, 3)]:
+                feats[nm] = self.rand_signal(rng, n, floats=(sc == "f"))
+        names = ["x", "y", "z"] + list(feats)
+        if n and rng.random() < 0.06:
+            # the kernel is the name of a feature holding as many weights as there are observations
+            if n % 2 == 0:
+                n -= 1
+                sigs = {nm: v[:n] for nm, v in sigs.items()}
+                feats = {nm: v[:n] for nm, v in feats.items()}
+            wts = [rng.choice([0, 1, 1, 2, 3, 0.5]) for _ in range(n)]
+            wts[n // 2] = rng.choice([1, 2, 4])
+            feats["w"] = wts
+            k = {"t": "feat", "name": "w"}
+            if sc == "f" and rng.random() < 0.5:
+                sc = "r"
+        how, dims, const = self.rand_dim(rng, names)
+        c = {"kind": "seq", "x": sigs["x"], "y": sigs["y"], "z": sigs["z"], "feats": feats, "dims": dims, "k": k, "sc": sc, "how": how}
+        if const:
+            c["const"] = const
+        if not session and not self._in_domain(c):
+            return None
+        return c
+
     def cases(self, rng, tier):
         out = []
         quick = tier == "quick"
@@ -282,14 +456,29 @@ class P(Prop):
                 for k in ({"t": "list", "w": [1, 2, 5]}, {"t": "uniform", "p": 1, "fb": True}, {"t": "uniform", "p": 1, "fb": False}):
                     if domain_ok(shape_weights(k), v):
                         out.append({"kind": "feat", "sig": v, "k": k, "sc": "r"})
-        # ---- sliding windows of every built-in kernel
+        # ---- sliding windows of every built-in kernel, boundary sizes included
         for t in OBJ_KERNELS:
             if t == "dirac":
                 continue
-            for p in self.WIDTHS + [6, 7.5, 10]:
+            for p in self.BOUNDARY_WIDTHS[t] + self.WIDTHS + [6, 7.5, 10]:
                 out.append({"kind": "sw", "k": {"t": t, "p": p, "fb": False}, "sc": "r" if t in RATIONAL_KERNELS else "f"})
                 if t in RATIONAL_KERNELS:
                     out.append({"kind": "sw", "k": {"t": t, "p": p, "fb": False}, "sc": "f"})
+        # ---- sliding windows of user-defined kernels: every small table over typed values, supports of every small size
+        for L in (1, 2, 3):
+            for tbl in itertools.product(self.USER_ALPHABET, repeat=L):
+                for s in (1, 1.5, 2, 2.5, 3):
+                    k = {"t": "user", "tbl": [list(e) for e in tbl], "s": s, "fb": False}
+                    out.append({"kind": "sw" if sum(shape_weights(k)) > 0 else "badk", "k": k, "sc": "r"})
+        for shape in USERFN_SHAPES:
+            for p in (1, 1.5, 2, 3, 4.5):
+                for s in (p, p + 0.5, 2 * p):
+                    k = {"t": "userfn", "shape": shape, "p": p, "s": max(1, s), "fb": False}
+                    out.append({"kind": "sw" if sum(shape_weights(k)) > 0 else "badk", "k": k, "sc": "f"})
+        for _ in range(150 if quick else 1500):
+            out.append({"kind": "sw", "k": self.rand_user(rng), "sc": rng.choice(["r", "f"])})
+            if out[-1]["k"]["t"] == "userfn":
+                out[-1]["sc"] = "f"
         # ---- random: features through track.operate(FILTER)
         nfeat = 2500 if quick else 40000
         made = 0
@@ -303,38 +492,74 @@ class P(Prop):
                 continue
             out.append({"kind": "feat", "sig": v, "k": k, "sc": sc})
             made += 1
-        # ---- random: x, y, z and features through filter_seq
+        # ---- random: track.operate(FILTER, af_in, kernel, af_out) with other output names and feature-name kernels
+        nop = 500 if quick else 6000
+        made = 0
+        while made < nop:
+            c = self.rand_op(rng)
+            if c is not None:
+                out.append(c)
+                made += 1
+        # ---- random: x, y, z and features through filter_seq, every form of `dim`
         nseq = 900 if quick else 12000
         made = 0
         while made < nseq:
-            k = self.rand_kernel(rng, allow_int=True)
-            w = shape_weights(k)
-            n = max(1, len(w)) + rng.choice([0, 1, 2, rng.randrange(0, 10)])
-            sc = self.pick_scalar(rng, k)
-            sigs = {nm: self.rand_signal(rng, n, nan=(rng.random() < 0.3), floats=(sc == "f")) for nm in ("x", "y", "z")}
-            feats = {}
-            for nm in ("a", "b")[:rng.randrange(0, 3)]:
-                feats[nm] = self.rand_signal(rng, n, floats=(sc == "f"))
-            names = ["x", "y", "z"] + list(feats)
-            dims = rng.choice([["x", "y", "z"], ["x", "y", "z"], ["x", "y"], ["y", "z"], ["x"], ["y"], ["z"],
-                               [rng.choice(names)], rng.sample(names, rng.randrange(1, len(names) + 1))])
-            allsig = dict(sigs, **feats)
-            if len(w) != 1 and not all(domain_ok(w, allsig[d]) for d in dims):
-                continue
-            if len(w) == 1 and any(x is None for d in dims for x in allsig[d]):
-                continue
-            out.append({"kind": "seq", "x": sigs["x"], "y": sigs["y"], "z": sigs["z"], "feats": feats, "dims": dims, "k": k, "sc": sc})
-            made += 1
+            c = self.rand_seq(rng)
+            if c is not None:
+                out.append(c)
+                made += 1
         # ---- Track.smooth
         for _ in range(150 if quick else 2000):
-            wd = rng.choice([1, 1, 2, 1.5, 3])
+            wd = rng.choice([1, 1, 2, 1.5, 3, 0.5, 0.75])
             n = 2 * int(3 * wd) + 1 + rng.randrange(0, 8)
             out.append({"kind": "smooth", "x": self.rand_signal(rng, n, nan=False, floats=True), "y": self.rand_signal(rng, n, nan=(rng.random() < 0.3), floats=True),
                         "z": self.rand_signal(rng, n, nan=False, floats=True), "w": wd, "sc": "f"})
+        # ---- sessions: several calls in one process, module-level state read after every call
+        for _ in range(350 if quick else 4000):
+            steps = []
+            for _ in range(rng.randrange(2, 5)):
+                r = rng.random()
+                if r < 0.7:
+                    st = self.rand_seq(rng, session=True)
+                    st["api"] = "seq"
+                elif r < 0.9:
+                    wd = rng.choice([1, 1, 2, 1.5, 0.5])
+                    n = 0 if rng.random() < 0.08 else 2 * int(3 * wd) + 1 + rng.randrange(0, 6)
+                    st = {"api": "smooth", "w": wd, "x": self.rand_signal(rng, n, nan=False, floats=True),
+                          "y": self.rand_signal(rng, n, nan=(rng.random() < 0.3), floats=True), "z": self.rand_signal(rng, n, nan=False, floats=True)}
+                    if n and rng.random() < 0.3:
+                        st[rng.choice(["z", "z", "x", "y"])] = [None] * n
+                else:
+                    n = rng.choice([0, 4, 6, 8, 9])
+                    st = {"api": "freq", "fc": rng.choice([0.25, 0.5]), "x": self.rand_signal(rng, n, nan=False), "y": self.rand_signal(rng, n, nan=False),
+                          "z": [None] * n if rng.random() < 0.4 else self.rand_signal(rng, n, nan=False),
+                          "how": rng.choice(["default", "const"]), "const": rng.choice(sorted(FILTER_CONSTS))}
+                st.pop("kind", None)
+                steps.append(st)
+            sc = "f" if any(st.get("sc") == "f" or st["api"] == "smooth" for st in steps) else "r"
+            for st in steps:
+                if st["api"] == "seq" and st["k"]["t"] in TABLE_KERNELS + ("userfn",):
+                    sc = "f"
+                st.pop("sc", None)
+            out.append({"kind": "session", "steps": steps, "sc": sc, "prebuild": rng.random() < 0.5})
+        # ---- weight lists with zero weights: judged where the valid weights have a positive sum
+        made = 0
+        while made < (300 if quick else 3000):
+            D = rng.choice([1, 1, 2, 3])
+            w = [rng.choice([0, 0, 1, 2, 0.5]) for _ in range(2 * D + 1)]
+            if sum(w) <= 0:
+                continue
+            n = len(w) + rng.randrange(0, 6)
+            v = self.rand_signal(rng, n, nan=False)
+            for _ in range(rng.randrange(0, 4)):
+                v[rng.randrange(n)] = None
+            out.append({"kind": "zerow", "sig": v, "k": {"t": "list", "w": w}, "sc": "r"})
+            made += 1
         # ---- outside the domain: a Kernel object whose window loses all its weight (the code divides by zero)
         for _ in range(40 if quick else 400):
             k = rng.choice([{"t": "dirac", "fb": rng.random() < 0.5}, {"t": "triangular", "p": 1, "fb": rng.random() < 0.5},
-                            {"t": "epanechnikov", "p": 1, "fb": True}])
+                            {"t": "epanechnikov", "p": 1, "fb": True},
+                            {"t": "user", "tbl": [["f", 0.5], ["i", 0]], "s": 1, "fb": rng.random() < 0.5}])
             n = rng.randrange(3, 9)
             v = self.rand_signal(rng, n, nan=False)
             v[rng.randrange(n)] = None
@@ -361,36 +586,139 @@ class P(Prop):
             sc = self.pick_scalar(rng, k)
             out.append({"kind": "short", "sig": self.rand_signal(rng, n, nan=(rng.random() < 0.3), floats=(sc == "f")), "k": k, "sc": sc})
             made += 1
+        # ---- outside the domain: refused kernels, names and tracks (correspondence only)
+        for _ in range(150 if quick else 1500):
+            out.append(self.rand_bad(rng))
         return out
 
+    def rand_op(self, rng):
+        """track.operate(FILTER, af_in, kernel, af_out): output into a new / an existing / the input feature, input may be a coordinate,
+        kernel may be the name of a feature holding the weights"""
+        n = rng.choice([3, 5, 5, 7, 9, rng.randrange(3, 12)])
+        featk = rng.random() < 0.4
+        sc = "r"
+        if featk:
+            if n % 2 == 0:
+                n += 1
+            k = {"t": "feat", "name": rng.choice(["w", "w", "w", "y"])}
+        else:
+            k = self.rand_kernel(rng)
+            sc = self.pick_scalar(rng, k)
+            n = max(n, len(shape_weights(k)))
+        sigs = {nm: self.rand_signal(rng, n, nan=False, floats=(sc == "f")) for nm in ("x", "y", "z")}
+        feats = {"a": self.rand_signal(rng, n, floats=(sc == "f")), "c": self.rand_signal(rng, n, floats=(sc == "f"))}
+        if featk:
+            wts = [rng.choice([0, 1, 1, 2, 3, 0.5]) for _ in range(n)]
+            wts[n // 2] = rng.choice([1, 2, 4])
+            if k["name"] == "w":
+                feats["w"] = wts
+            else:
+                sigs["y"] = wts
+        af_in = rng.choice(["a", "a", "x", "z", "c"])
+        af_out = rng.choice(["b", "b", af_in if af_in in feats else "b", "c", "a"])
+        if featk and af_out == k["name"]:
+            af_out = "b"
+        c = {"kind": "op", "x": sigs["x"], "y": sigs["y"], "z": sigs["z"], "feats": feats, "in": af_in, "out": af_out, "k": k, "sc": sc}
+        w = self.op_weights(c)
+        if not domain_ok(w, dict(sigs, **feats)[af_in]):
+            return None
+        return c
+
+    def kweights(self, case):
+        """the weights the kernel of a case / session step stands for (a feature-name kernel reads them in the track)"""
+        k = case.get("k") or {"t": "gaussian", "p": case.get("w")}
+        return self.op_weights(case) if k["t"] == "feat" else shape_weights(k)
+
+    def op_weights(self, case):
+        k = case["k"]
+        if k["t"] == "feat":
+            allsig = dict({"x": case["x"], "y": case["y"], "z": case["z"]}, **case.get("feats", {}))
+            return [Fraction(x) for x in allsig[k["name"]]]
+        return shape_weights(k)
+
+    def rand_bad(self, rng):
+        n = rng.choice([0, 3, 4, 5, 7])
+        sigs = {nm: self.rand_signal(rng, n, nan=False) for nm in ("x", "y", "z")}
+        feats = {"a": self.rand_signal(rng, n, nan=False)} if n else {}
+        what = rng.choice(["even", "int", "support", "zerosum", "reserved", "unknown", "empty", "strdim", "newfeat"])
+        k = {"t": "list", "w": [1, 2, 1]}
+        dims, how = ["x", "y"], "list"
+        if what == "even":
+            k = {"t": "list", "w": [rng.randrange(1, 5) for _ in range(rng.choice([0, 2, 4]))]}
+        elif what == "int":
+            k = {"t": "int", "n": rng.choice([0, 2, 4, -1, -3, 1])}
+        elif what == "support":
+            k = rng.choice([{"t": "uniform", "p": 0.25, "fb": False}, {"t": "triangular", "p": 0.5, "fb": True},
+                            {"t": "user", "tbl": [["f", 1.0]], "s": 0.5, "fb": False}])
+        elif what == "zerosum":
+            k = {"t": "user", "tbl": [rng.choice([["i", 0], ["f", 0.0], ["I", 0]]) for _ in range(rng.randrange(1, 3))] + [["f", 1.0]], "s": 1, "fb": False}
+            k["tbl"] = k["tbl"][:2] if len(k["tbl"]) > 2 else k["tbl"][:1] + [["i", 0]]
+        elif what == "reserved":
+            dims = rng.choice([["t"], ["idx"], ["x", "timestamp"], ["x", "idx", "y"]])
+        elif what == "unknown":
+            dims = rng.choice([["q"], ["x", "q"], ["q", "a", "y"]])
+        elif what == "empty":
+            n, feats = 0, {}
+            sigs = {nm: [] for nm in ("x", "y", "z")}
+            k = rng.choice([{"t": "list", "w": [1, 2, 1]}, {"t": "uniform", "p": 1, "fb": True}, {"t": "int", "n": 1}, {"t": "list", "w": [1, 1]}])
+            dims = rng.choice([["x"], ["x", "y", "z"], []])
+        elif what == "strdim":
+            how, dims = "str", list(rng.choice(["a", "xa", "ab", "speed", "xyt", ""]))
+        elif what == "newfeat":
+            dims = rng.choice([["n"], ["x", "n"], ["n", "n"]])
+        return {"kind": "badk", "x": sigs["x"], "y": sigs["y"], "z": sigs["z"], "feats": feats, "dims": dims, "k": k, "sc": "r", "how": how}
+
     def pick_scalar(self, rng, k):
-        if k["t"] in TABLE_KERNELS:
+        if k["t"] in TABLE_KERNELS or k["t"] == "userfn":
             return "f"
         return "r" if rng.random() < 0.7 else "f"
 
+    def step_kernel(self, st):
+        return st["k"] if st.get("api", "seq") == "seq" and "k" in st else {"t": "gaussian", "p": st.get("w"), "fb": None}
+
     def describe(self, case):
+        kind = case["kind"]
+        if kind == "session":
+            t = {"kind": kind, "scalar": case["sc"], "steps": len(case["steps"]), "prebuilt_kernels": bool(case.get("prebuild")),
+                 "apis": "+".join(sorted({st["api"] for st in case["steps"]})),
+                 "allnan_or_empty": any(self.step_degenerate(st) for st in case["steps"]),
+                 "default_dim": sum(1 for st in case["steps"] if st.get("how", "default") == "default")}
+            return t
         k = case.get("k", {"t": "gaussian"})
-        t = {"kind": case["kind"], "kernel": k["t"], "scalar": case.get("sc")}
+        t = {"kind": kind, "kernel": k["t"], "scalar": case.get("sc")}
         if "fb" in k:
             t["filterBoundary"] = k["fb"]
+        if "how" in case:
+            t["dim"] = case["how"]
+        if k["t"] == "user":
+            t["user_types"] = "".join(sorted({e[0] for e in k["tbl"]}))
+            t["edge_zero_int"] = bool(k["tbl"]) and k["tbl"][-1][1] == 0 and k["tbl"][-1][0] in ("i", "I", "b") or int(k["s"]) >= len(k["tbl"])
         sig = case.get("sig") or case.get("y")
-        if sig is not None:
+        if sig is not None and k["t"] != "feat":
             t["nan"] = any(x is None for x in sig)
-            t["slack"] = min(3, len(sig) - len(shape_weights(k))) if case["kind"] != "smooth" else "-"
+            t["slack"] = min(3, len(sig) - len(shape_weights(k))) if kind != "smooth" else "-"
         if k["t"] == "list":
             t["window"] = len(k["w"])
             t["asymmetric"] = k["w"] != k["w"][::-1]
         return t
 
+    def step_degenerate(self, st):
+        return len(st["x"]) == 0 or any(len(st[c]) and all(a is None for a in st[c]) for c in ("x", "y", "z"))
+
     def nontrivial(self, case):
-        if case["kind"] == "sw":
+        kind = case["kind"]
+        if kind == "sw":
             return True
-        if case["kind"] in ("zeronorm", "short"):
+        if kind in ("zeronorm", "short", "badk"):
             return False
-        k = case.get("k", {"t": "gaussian", "p": case.get("w")})
-        if len(shape_weights(k)) < 3:
+        if kind == "session":
+            return sum(1 for st in case["steps"] if st["api"] != "freq") >= 2
+        if kind == "op":
+            w = self.op_weights(case)
+            return len(w) >= 3
+        if len(self.kweights(case)) < 3:
             return False
-        sigs = [case["sig"]] if case["kind"] == "feat" else [case["x"], case["y"], case["z"]]
+        sigs = [case["sig"]] if kind in ("feat", "zerow") else [case["x"], case["y"], case["z"]]
         return any(len(set(x for x in s if x is not None)) > 1 for s in sigs)
 
     # ---------------------------------------------------------------- implementation
@@ -400,6 +728,33 @@ class P(Prop):
             t.addObs(self.Obs(self.ENU(num(x[i]), num(y[i]) if y else 0.0, num(z[i]) if z else 0.0), self.t0.addSec(i)))
         return t
 
+    def pyval(self, ty, val):
+        np = self.np
+        return {"i": lambda: int(val), "f": lambda: float(val), "F": lambda: np.float64(val), "I": lambda: np.int64(val),
+                "b": lambda: bool(val), "h": lambda: np.float32(val)}[ty]()
+
+    def user_function(self, k):
+        """the Python function of a user-defined kernel"""
+        if k["t"] == "user":
+            tbl = [self.pyval(ty, val) for ty, val in k["tbl"]]
+
+            def f(x, tbl=tbl):
+                a = abs(x)
+                if a == int(a) and int(a) < len(tbl):
+                    return tbl[int(a)]
+                return 0
+            return f
+        shape, p = k["shape"], k["p"]
+        if shape == "tent":
+            return lambda x: max(0, 1 - abs(x) / p)
+        if shape == "box":
+            return lambda x: 1 * (abs(x) <= p)
+        if shape == "cond":
+            return lambda x: 0 if abs(x) > p else (p - abs(x)) / p ** 2
+        if shape == "bell":
+            return lambda x: 0 if abs(x) >= p else (1 - (x / p) ** 2) ** 2
+        raise ValueError(shape)
+
     def mk_kernel(self, k):
         K = self.K
         t = k["t"]
@@ -407,24 +762,41 @@ class P(Prop):
             return list(k["w"])
         if t == "int":
             return k["n"]
+        if t == "feat":
+            return k["name"]
         if t == "dirac":
             o = K.DiracKernel()
+        elif t in ("user", "userfn"):
+            f = self.user_function(k)
+            o = K.Kernel(f, k["s"])
+            if k.get("setf", True):      # "setf": false = the constructor alone (the defect repaired by 91685d1: the constructor dropped its function)
+                o.setFunction(f)
         else:
             o = {"uniform": K.UniformKernel, "triangular": K.TriangularKernel, "epanechnikov": K.EpanechnikovKernel,
                  "gaussian": K.GaussianKernel, "exponential": K.ExponentialKernel, "cubic": K.CubicKernel,
                  "spheric": K.SphericKernel}[t](k["p"])
-        o.setFilterBoundary(bool(k["fb"]))
+        if k.get("fb") is not None:
+            o.setFilterBoundary(bool(k["fb"]))
         return o
 
     def window_of(self, k):
         """the weights the implementation says it uses for a Kernel object (observed, not recomputed)"""
-        if k["t"] in ("list", "int"):
+        if k["t"] in ("list", "int", "feat"):
             return None
         if k["t"] == "dirac":
             return [0.0, 1.0, 0.0]
         return [canon(x) for x in self.mk_kernel(k).toSlidingWindow()]
 
+    def safe_window(self, k):
+        try:
+            return self.window_of(k)
+        except BaseException as e:
+            if isinstance(e, KeyboardInterrupt):
+                raise
+            return None
+
     def impl(self, case):
+        self.restore_globals()
         try:
             return self.impl_raw(case)
         except BaseException as e:
@@ -433,18 +805,50 @@ class P(Prop):
             # keep the window the implementation exposes: the oracle needs it to tell whether a division by
             # zero happened inside or outside the property's domain
             import engine
-            k = case.get("k", {"t": "gaussian", "p": case.get("w"), "fb": False})
-            try:
-                win = self.window_of(k)
-            except BaseException:
-                win = None
-            return {"err": engine.err_kind(e), "detail": str(e)[:200], "window": win}
+            k = case.get("k", {"t": "gaussian", "p": case.get("w"), "fb": None})
+            return {"err": engine.err_kind(e), "detail": str(e)[:200], "window": self.safe_window(k)}
+        finally:
+            self.restore_globals()
+
+    def call_seq(self, st, kern=None):
+        """one call of filter_seq / Track.smooth on its own track; never raises. `kern`: a kernel object built beforehand"""
+        import engine
+        api = st.get("api", "seq")
+        k = self.step_kernel(st)
+        res = {}
+        try:
+            t = self.mk_track(st["x"], st["y"], st["z"])
+            for nm, v in st.get("feats", {}).items():
+                t.createAnalyticalFeature(nm, [num(a) for a in v])
+            if api == "smooth":
+                t.smooth(st["w"])
+                r = t
+            else:
+                if kern is None:
+                    kern = self.mk_kernel(k)
+                how = st.get("how", "list")
+                if how == "default":
+                    r = self.F.filter_seq(t, kern)
+                elif how == "const":
+                    r = self.F.filter_seq(t, kern, getattr(self.F, st["const"]))
+                elif how == "str":
+                    r = self.F.filter_seq(t, kern, "".join(st["dims"]))
+                else:
+                    r = self.F.filter_seq(t, kern, list(st["dims"]))
+            res = {"sigs": self.read_track(t), "same": r is t}
+        except BaseException as e:
+            if isinstance(e, KeyboardInterrupt):
+                raise
+            res = {"err": engine.err_kind(e), "detail": str(e)[:200]}
+        res["state"] = self.globals_now()
+        res["window"] = self.safe_window(k)
+        return res
 
     def impl_raw(self, case):
         kind = case["kind"]
         if kind == "sw":
             return {"window": self.window_of(case["k"])}
-        if kind in ("feat", "zeronorm", "short"):
+        if kind in ("feat", "zeronorm", "short", "zerow"):
             v = case["sig"]
             t = self.mk_track([float(i) for i in range(len(v))])
             t.createAnalyticalFeature("a", [num(a) for a in v])
@@ -454,17 +858,50 @@ class P(Prop):
                     "kafter": [canon(a) for a in kern] if isinstance(kern, list) else None,
                     "input_after": [canon(a) for a in t.getAnalyticalFeature("a")],
                     "window": self.window_of(case["k"])}
-        if kind == "seq":
+        if kind == "op":
             t = self.mk_track(case["x"], case["y"], case["z"])
             for nm, v in case["feats"].items():
                 t.createAnalyticalFeature(nm, [num(a) for a in v])
             kern = self.mk_kernel(case["k"])
-            r = self.filter_seq(t, kern, list(case["dims"]))
-            return {"sigs": self.read_track(t), "same": r is t, "window": self.window_of(case["k"])}
-        if kind == "smooth":
-            t = self.mk_track(case["x"], case["y"], case["z"])
-            t.smooth(case["w"])
-            return {"sigs": self.read_track(t), "same": True, "window": self.window_of({"t": "gaussian", "p": case["w"], "fb": False})}
+            ret = t.operate(self.Operator.FILTER, case["in"], kern, case["out"])
+            return {"ret": [canon(a) for a in ret], "sigs": self.read_track(t),
+                    "kafter": [canon(a) for a in kern] if isinstance(kern, list) else None,
+                    "window": self.window_of(case["k"]), "state": self.globals_now()}
+        if kind in ("seq", "smooth", "badk"):
+            if kind == "badk" and "dims" not in case:
+                return {"window": self.window_of(case["k"])}
+            st = dict(case, api="smooth" if kind == "smooth" else "seq")
+            res = self.call_seq(st)
+            if "err" in res:
+                res.pop("state")
+            return res
+        if kind == "session":
+            steps = []
+            # all the kernel objects of the session may be alive before the first call
+            prebuilt = {}
+            if case.get("prebuild"):
+                for i, st in enumerate(case["steps"]):
+                    if st["api"] == "seq":
+                        try:
+                            prebuilt[i] = self.mk_kernel(st["k"])
+                        except BaseException as e:
+                            if isinstance(e, KeyboardInterrupt):
+                                raise
+            for i, st in enumerate(case["steps"]):
+                if st["api"] == "freq":
+                    try:
+                        t = self.mk_track(st["x"], st["y"], st["z"])
+                        if st["how"] == "default":
+                            self.F.filter_freq(t, st["fc"])
+                        else:
+                            self.F.filter_freq(t, st["fc"], dim=getattr(self.F, st["const"]))
+                    except BaseException as e:
+                        if isinstance(e, KeyboardInterrupt):
+                            raise
+                    steps.append({"api": "freq", "state": self.globals_now()})
+                else:
+                    steps.append(self.call_seq(st, prebuilt.get(i)))
+            return {"steps": steps}
         raise ValueError(kind)
 
     def read_track(self, t):
@@ -480,43 +917,90 @@ class P(Prop):
     def sig_tok(self, sc, v):
         return tok_list("nan" if a is None else self.tok(sc, a) for a in v)
 
+    def fbtok(self, k):
+        return "d" if k.get("fb") is None else str(int(bool(k["fb"])))
+
     def kspec(self, sc, k):
         t = k["t"]
         if t == "list":
             return "list " + tok_list(self.tok(sc, w) for w in k["w"])
         if t == "int":
             return "int %d" % k["n"]
+        if t == "feat":
+            return "feat " + k["name"]
         if t == "dirac":
-            return "dirac %d" % int(k["fb"])
+            return "dirac " + self.fbtok(k)
         if sc == "r" and t in RATIONAL_KERNELS:
-            return "%s %d %s" % ({"uniform": "uni", "triangular": "tri", "epanechnikov": "epa"}[t], int(k["fb"]), ratstr(k["p"]))
+            return "%s %s %s" % ({"uniform": "uni", "triangular": "tri", "epanechnikov": "epa"}[t], self.fbtok(k), ratstr(k["p"]))
+        if t == "user":
+            return "user %s %s %s" % (self.fbtok(k), self.tok(sc, k["s"]), tok_list(self.tok(sc, val) for _, val in k["tbl"]))
         # any other Kernel object: its Python function tabulated at the half-integers around the window
         o = self.mk_kernel(k)
         f = o.getFunction()
         S = int(o.support) + 1
         pts = [h / 2.0 for h in range(-2 * S, 2 * S + 1)]
-        return "fn %d %s %s" % (int(k["fb"]), self.tok(sc, o.support), tok_list("%s:%s" % (self.tok(sc, x), self.tok(sc, float(f(x)))) for x in pts))
+        return "fn %s %s %s" % (self.fbtok(k), self.tok(sc, o.support), tok_list("%s:%s" % (self.tok(sc, x), self.tok(sc, float(f(x)))) for x in pts))
+
+    def needs_sw(self, k):
+        return k["t"] not in ("list", "int", "dirac", "feat")
+
+    def track_tok(self, sc, st):
+        feats = st.get("feats", {})
+        names = ["x", "y", "z"] + list(feats)
+        sigs = [st["x"], st["y"], st["z"]] + [feats[n] for n in feats]
+        return "%s %s" % (tok_list(names), tok_list((self.sig_tok(sc, s) for s in sigs), ";"))
+
+    def dim_tok(self, st):
+        how = st.get("how", "list")
+        if st.get("api") == "smooth" or how == "default":
+            return "D"
+        if how == "const":
+            return "C:" + st["const"]
+        if how == "str":
+            return "S:" + "".join(st["dims"])
+        return "L:" + tok_list(st["dims"])
 
     def requests(self, case):
+        try:
+            return self._requests(case)
+        finally:
+            self.restore_globals()      # building a kernel object to tabulate its function must not leave anything behind
+
+    def _requests(self, case):
         kind, sc = case["kind"], case["sc"]
-        if kind == "sw":
+        if kind == "sw" or (kind == "badk" and "dims" not in case):
             return ["C15.sw %s %s" % (sc, self.kspec(sc, case["k"]))]
-        if kind in ("feat", "zeronorm", "short"):
+        if kind in ("feat", "zeronorm", "short", "zerow"):
             k = case["k"]
             ls = ["C15.exec %s %s %s" % (sc, self.sig_tok(sc, case["sig"]), self.kspec(sc, k))]
-            if k["t"] not in ("list", "int", "dirac"):
+            if self.needs_sw(k):
                 ls.append("C15.sw %s %s" % (sc, self.kspec(sc, k)))
             return ls
-        if kind in ("seq", "smooth"):
-            k = case["k"] if kind == "seq" else {"t": "gaussian", "p": case["w"], "fb": False}
-            feats = case.get("feats", {})
-            names = ["x", "y", "z"] + list(feats)
-            sigs = [case["x"], case["y"], case["z"]] + [feats[n] for n in feats]
-            dims = case["dims"] if kind == "seq" else ["x", "y", "z"]
-            ls = ["C15.seq %s %s %s %s %s" % (sc, tok_list(dims), tok_list(names), tok_list((self.sig_tok(sc, s) for s in sigs), ";"), self.kspec(sc, k))]
-            if k["t"] not in ("list", "int", "dirac"):
+        if kind == "op":
+            k = case["k"]
+            ls = ["C15.op %s %s %s %s %s" % (sc, case["in"], case["out"], self.track_tok(sc, case), self.kspec(sc, k))]
+            if self.needs_sw(k):
                 ls.append("C15.sw %s %s" % (sc, self.kspec(sc, k)))
             return ls
+        if kind in ("seq", "badk"):
+            k = case["k"]
+            ls = ["C15.seq %s %s %s %s" % (sc, self.dim_tok(case), self.track_tok(sc, case), self.kspec(sc, k))]
+            if self.needs_sw(k):
+                ls.append("C15.sw %s %s" % (sc, self.kspec(sc, k)))
+            return ls
+        if kind == "smooth":
+            k = {"t": "gaussian", "p": case["w"], "fb": None}
+            return ["C15.smooth %s %s %s" % (sc, self.track_tok(sc, case), self.kspec(sc, k)), "C15.sw %s %s" % (sc, self.kspec(sc, k))]
+        if kind == "session":
+            toks, ls = [], []
+            steps = [st for st in case["steps"] if st["api"] != "freq"]
+            for st in steps:
+                k = self.step_kernel(st)
+                ks = self.kspec(sc, k)
+                toks.append("%s %s %d %s" % (self.dim_tok(st), self.track_tok(sc, st), len(ks.split(" ")), ks))
+                if self.needs_sw(k):
+                    ls.append("C15.sw %s %s" % (sc, ks))
+            return ["C15.session %s %d %s" % (sc, len(steps), " ".join(toks))] + ls
 
     def val(self, sc, tok):
         if tok == "nan":
@@ -526,79 +1010,145 @@ class P(Prop):
     def vals(self, sc, tok, sep=","):
         return [self.val(sc, t) for t in untok(tok, sep)]
 
-    def decode_window(self, case, k, replies):
-        if k["t"] in ("list", "int"):
+    def decode_sw(self, sc, k, reply):
+        if k["t"] in ("list", "int", "feat"):
             return None
         if k["t"] == "dirac":
             return [0.0, 1.0, 0.0]
-        r = replies[-1].split(" ")
+        r = reply.split(" ")
         if r[0] != "ok":
-            return {"err": r[0]}
-        return self.vals(case["sc"], r[1])
+            return None
+        return self.vals(sc, r[1])
+
+    def decode_window(self, case, k, replies):
+        return self.decode_sw(case["sc"], k, replies[-1])
+
+    def decode_globals(self, tok):
+        consts, fb = tok.split(";")
+        d = {}
+        for item in consts.split("|"):
+            n, v = item.split("=")
+            d[n] = [] if v in ("_", "") else v.split(".")
+        d["Kernel.filter_boundary"] = fb == "1"
+        d["Kernel.kernel_function"] = "None"
+        d["Kernel.support"] = "None"
+        return d
+
+    def decode_call(self, sc, reply, window):
+        """reply of one filter_seq call: `ok <names> <signals> <globals>` | `err:<kind> <globals>`"""
+        r = reply.split(" ")
+        if r[0] != "ok":
+            return {"err": r[0], "window": window, "state": self.decode_globals(r[1])}
+        names = untok(r[1])
+        sigs = [self.vals(sc, s) for s in untok(r[2], ";")]
+        return {"sigs": dict(zip(names, sigs)), "same": True, "window": window, "state": self.decode_globals(r[3])}
 
     def decode(self, case, replies):
         kind, sc = case["kind"], case["sc"]
-        if any(r == "bad-request" for r in replies):
+        if any(r == "bad-request" or r.startswith("bad-request ") or " # bad-request" in r for r in replies):
             raise ValueError("bad-request")
-        if kind == "sw":
+        if kind == "sw" or (kind == "badk" and "dims" not in case):
+            r = replies[-1].split(" ")
+            if r[0] != "ok":
+                return {"err": r[0]}
             return {"window": self.decode_window(case, case["k"], replies)}
-        r = replies[0].split(" ")
-        if r[0] != "ok":
-            return {"err": r[0]}
-        if kind in ("feat", "zeronorm", "short"):
+        if kind in ("feat", "zeronorm", "short", "zerow"):
+            r = replies[0].split(" ")
+            if r[0] != "ok":
+                return {"err": r[0]}
             out = self.vals(sc, r[2])
             return {"out": out, "ret": out, "kafter": None if r[1] == "none" else self.vals(sc, r[1]),
                     "input_after": [canon(num(a)) for a in case["sig"]], "window": self.decode_window(case, case["k"], replies)}
-        k = case["k"] if kind == "seq" else {"t": "gaussian", "p": case["w"], "fb": False}
-        names = untok(r[1])
-        sigs = [self.vals(sc, s) for s in untok(r[2], ";")]
-        return {"sigs": dict(zip(names, sigs)), "same": True, "window": self.decode_window(case, k, replies)}
+        if kind == "op":
+            r = replies[0].split(" ")
+            if r[0] != "ok":
+                return {"err": r[0]}
+            names = untok(r[3])
+            sigs = [self.vals(sc, s) for s in untok(r[4], ";")]
+            return {"ret": self.vals(sc, r[2]), "sigs": dict(zip(names, sigs)), "kafter": None if r[1] == "none" else self.vals(sc, r[1]),
+                    "window": self.decode_window(case, case["k"], replies), "state": self.decode_globals(self.PRISTINE_TOKEN)}
+        if kind in ("seq", "smooth", "badk"):
+            k = case["k"] if kind != "smooth" else {"t": "gaussian", "p": case["w"], "fb": None}
+            res = self.decode_call(sc, replies[0], self.decode_window(case, k, replies))
+            if "err" in res:
+                res.pop("state")
+            return res
+        if kind == "session":
+            parts = replies[0].split(" # ")
+            steps, j, w = [], 0, 1
+            for st in case["steps"]:
+                if st["api"] == "freq":
+                    steps.append({"api": "freq", "state": self.decode_globals(self.PRISTINE_TOKEN)})
+                    continue
+                k = self.step_kernel(st)
+                window = None
+                if self.needs_sw(k):
+                    window = self.decode_sw(sc, k, replies[w])
+                    w += 1
+                elif k["t"] == "dirac":
+                    window = [0.0, 1.0, 0.0]
+                steps.append(self.decode_call(sc, parts[j], window))
+                j += 1
+            return {"steps": steps}
 
-    def compare(self, case, impl_out, model_out):
+    PRISTINE_TOKEN = "FILTER_X=x|FILTER_Y=y|FILTER_Z=z|FILTER_XY=x.y|FILTER_XZ=x.z|FILTER_YZ=y.z|FILTER_XYZ=x.y.z;0"
+    ERR_MAP = {"err:even-kernel": ("err:NameError", "err:KernelError"), "err:zerodiv": ("err:zerodiv",),
+               "err:index": ("err:index",), "err:support": ("err:NameError", "err:KernelError"),
+               "err:feature": ("err:AnalyticalFeatureError",), "err:empty-track": ("err:AnalyticalFeatureError",)}
+
+    def compare_one(self, impl_out, model_out):
         if "err" in impl_out or "err" in model_out:
             if "err" in impl_out and "err" in model_out:
-                want = {"err:even-kernel": ("err:NameError", "err:KernelError"), "err:zerodiv": ("err:zerodiv",),
-                        "err:index": ("err:index",), "err:support": ("err:NameError", "err:KernelError"),
-                        "err:feature": ("err:AnalyticalFeatureError",)}.get(model_out["err"], ())
-                return None if impl_out["err"] in want else "error kinds differ: impl=%s model=%s" % (impl_out["err"], model_out["err"])
+                want = self.ERR_MAP.get(model_out["err"], ())
+                if impl_out["err"] not in want:
+                    return "error kinds differ: impl=%s model=%s" % (impl_out["err"], model_out["err"])
+                if impl_out.get("state") != model_out.get("state"):
+                    return "module-level state after the call: impl=%s model=%s" % (impl_out.get("state"), model_out.get("state"))
+                return None
             return "impl=%s model=%s" % (str(impl_out)[:300], str(model_out)[:300])
-        return Prop.compare(self, case, impl_out, model_out)
+        if close(impl_out, model_out, self.rel_tol):
+            return None
+        return "impl=%s model=%s" % (str(impl_out)[:400], str(model_out)[:400])
+
+    def compare(self, case, impl_out, model_out):
+        if case["kind"] == "session" and "steps" in impl_out and "steps" in model_out:
+            for i, (a, b) in enumerate(zip(impl_out["steps"], model_out["steps"])):
+                bad = self.compare_one(a, b)
+                if bad:
+                    return "step %d: %s" % (i, bad)
+            return None
+        return self.compare_one(impl_out, model_out)
 
     # ---------------------------------------------------------------- oracle (transfer)
-    def weights_for(self, k, out):
-        """(weights as Fractions, filterBoundary, problem): lists use the caller's weights, Kernel objects the
-        sliding window the implementation exposes (checked for the shape the property states)"""
+    def weights_for(self, k, out, case=None):
+        """(weights as Fractions, filterBoundary, problem): lists use the caller's weights, a feature name the values of
+        that feature, Kernel objects the sliding window the implementation exposes (checked for the shape the property
+        states); a kernel on which setFilterBoundary was never called does not filter boundaries"""
         if k["t"] in ("list", "int"):
             return shape_weights(k), False, None
+        if k["t"] == "feat":
+            return self.op_weights(case), False, None
         win = out.get("window")
         bad = check_window(win)
         if bad:
             return None, None, bad
-        return [Fraction(x) for x in win], bool(k["fb"]), None
+        return [Fraction(x) for x in win], bool(k.get("fb")), None
 
-    def spec(self, case, out):
-        kind = case["kind"]
-        if kind in ("zeronorm", "short"):
-            return None  # outside the domain of the property (a window without valid weight / a signal shorter than the window)
+    def spec_seq(self, st, out):
+        """one call of filter_seq / Track.smooth inside the property's domain"""
+        api = st.get("api", "seq")
+        k = self.step_kernel(st)
+        dims = st["dims"] if api == "seq" else ["x", "y", "z"]
+        if api == "seq" and st.get("how") == "str" and len(dims) != 1:
+            return None     # the property does not say what a str of several characters means as `dim` (correspondence only)
         if "err" in out:
-            return self.judge_error(case, out)
-        if kind == "sw":
-            return check_window(out["window"])
-        if kind == "feat":
-            w, fb, bad = self.weights_for(case["k"], out)
-            if bad:
-                return bad
-            if out["input_after"] != [canon(num(a)) for a in case["sig"]]:
-                return "the input feature was modified: %r" % out["input_after"]
-            return check_signal(w, case["sig"], fb, out["out"], "feature")
-        k = case["k"] if kind == "seq" else {"t": "gaussian", "p": case["w"], "fb": False}
-        dims = case["dims"] if kind == "seq" else ["x", "y", "z"]
-        w, fb, bad = self.weights_for(k, out)
+            return self.judge_error(dict(st, kind="seq" if api == "seq" else "smooth"), out)
+        w, fb, bad = self.weights_for(k, out, st)
         if bad:
             return bad
         if not out["same"]:
             return "filter_seq did not return the track it filtered"
-        allsig = dict({"x": case["x"], "y": case["y"], "z": case["z"]}, **case.get("feats", {}))
+        allsig = dict({"x": st["x"], "y": st["y"], "z": st["z"]}, **st.get("feats", {}))
         for nm, v in allsig.items():
             got = out["sigs"].get(nm)
             if nm in dims and len(w) != 1:
@@ -609,31 +1159,119 @@ class P(Prop):
                 return "%s was not to be filtered but changed: %r -> %r" % (nm, v, got)
         return None
 
+    def spec(self, case, out):
+        kind = case["kind"]
+        if kind in ("zeronorm", "short", "badk"):
+            return None  # outside the domain of the property (a window without valid weight / a signal shorter than the window / a refused call)
+        if kind == "session":
+            if "steps" not in out:
+                return "the session raised %s (%s)" % (out.get("err"), out.get("detail", ""))
+            for i, (st, o) in enumerate(zip(case["steps"], out["steps"])):
+                if st["api"] == "freq" or not self._in_domain(dict(st, kind="seq" if st["api"] == "seq" else "smooth")):
+                    continue
+                bad = self.spec_seq(st, o)
+                if bad:
+                    return "call %d of the session (%s): %s" % (i + 1, st["api"], bad)
+            return None
+        if kind in ("seq", "smooth"):
+            return self.spec_seq(dict(case, api="smooth" if kind == "smooth" else "seq"), out)
+        if "err" in out:
+            return self.judge_error(case, out)
+        if kind == "sw":
+            return check_window(out["window"])
+        if kind in ("feat", "zerow"):
+            w, fb, bad = self.weights_for(case["k"], out)
+            if bad:
+                return bad
+            if out["input_after"] != [canon(num(a)) for a in case["sig"]]:
+                return "the input feature was modified: %r" % out["input_after"]
+            return check_signal(w, case["sig"], fb, out["out"], "feature", skip_undefined=(kind == "zerow"))
+        if kind == "op":
+            w, fb, bad = self.weights_for(case["k"], out, case)
+            if bad:
+                return bad
+            allsig = dict({"x": case["x"], "y": case["y"], "z": case["z"]}, **case["feats"])
+            bad = check_signal(w, allsig[case["in"]], fb, out["sigs"].get(case["out"]), "feature %s" % case["out"])
+            if bad:
+                return bad
+            bad = check_signal(w, allsig[case["in"]], fb, out["ret"], "returned list")
+            if bad:
+                return bad
+            for nm, v in allsig.items():
+                if nm != case["out"] and out["sigs"].get(nm) != [canon(num(a)) for a in v]:
+                    return "%s was not to be filtered but changed: %r -> %r" % (nm, v, out["sigs"].get(nm))
+            return None
+        return self.spec_seq(dict(case, api="smooth" if kind == "smooth" else "seq"), out)
+
     def judge_error(self, case, out):
         """an exception inside the property's domain is a failure; a ZeroDivisionError is outside the domain when,
         with the sliding window the implementation itself exposes (well shaped), some window has no valid weight"""
         msg = "raised %s (%s)" % (out["err"], out.get("detail", ""))
-        k = case.get("k", {"t": "gaussian", "p": case.get("w"), "fb": False})
-        if case["kind"] == "sw" or out["err"] != "err:zerodiv" or k["t"] in ("list", "int"):
+        k = case.get("k", {"t": "gaussian", "p": case.get("w"), "fb": None})
+        if case["kind"] == "zerow" and out["err"] == "err:zerodiv":
+            return None      # some window has no valid weight: outside the domain, the call may fail
+        if case["kind"] == "sw" or out["err"] != "err:zerodiv" or k["t"] in ("list", "int", "feat"):
             return msg
         win = out.get("window")
         if check_window(win) or any(x < 0 for x in win):
             return msg
         w = [Fraction(x) for x in win]
-        sigs = [case["sig"]] if case["kind"] == "feat" else [dict({"x": case["x"], "y": case["y"], "z": case["z"]}, **case.get("feats", {}))[d]
-                                                              for d in case.get("dims", ["x", "y", "z"])]
+        if case["kind"] in ("feat",):
+            sigs = [case["sig"]]
+        elif case["kind"] == "op":
+            sigs = [dict({"x": case["x"], "y": case["y"], "z": case["z"]}, **case["feats"])[case["in"]]]
+        else:
+            sigs = [dict({"x": case["x"], "y": case["y"], "z": case["z"]}, **case.get("feats", {}))[d] for d in case.get("dims", ["x", "y", "z"])]
         if any(not domain_ok(w, v) for v in sigs):
             return None
         return msg
 
+    def classify(self, case, impl_out, msg):
+        return None
+
     # ---------------------------------------------------------------- shrinking / search
     def _sig_names(self, case):
-        return ["sig"] if case["kind"] in ("feat", "zeronorm", "short") else ["x", "y", "z"]
+        return ["sig"] if case["kind"] in ("feat", "zeronorm", "short", "zerow") else ["x", "y", "z"]
 
     def shrink(self, case):
-        if case["kind"] == "sw":
+        kind = case["kind"]
+        if kind == "sw":
+            k = case["k"]
+            if k["t"] == "user":
+                if len(k["tbl"]) > 1:
+                    yield dict(case, k=dict(k, tbl=k["tbl"][:-1]))
+                if k["s"] > 1:
+                    yield dict(case, k=dict(k, s=k["s"] - 1 if k["s"] >= 2 else 1))
+                for i, (ty, val) in enumerate(k["tbl"]):
+                    if ty not in ("i", "f"):
+                        yield dict(case, k=dict(k, tbl=k["tbl"][:i] + [["i" if val == int(val) else "f", val]] + k["tbl"][i + 1:]))
+            return
+        if kind == "session":
+            steps = case["steps"]
+            if len(steps) > 1:
+                for i in range(len(steps)):
+                    yield dict(case, steps=steps[:i] + steps[i + 1:])
+            for i, st in enumerate(steps):
+                if st["api"] == "freq":
+                    continue
+                sub = dict(st, kind="seq" if st["api"] == "seq" else "smooth", sc=case["sc"])
+                n = 0
+                for c in self.shrink(sub):
+                    n += 1
+                    if n > 40:
+                        break
+                    c = dict(c)
+                    c.pop("kind", None)
+                    c.pop("sc", None)
+                    if "api" not in c:
+                        c["api"] = st["api"]
+                    yield dict(case, steps=steps[:i] + [c] + steps[i + 1:])
+            return
+        if kind in ("op", "badk"):
             return
         k = case.get("k", {"t": "gaussian", "p": case.get("w")})
+        if k["t"] == "feat":
+            return
         N = len(shape_weights(k))
         names = self._sig_names(case)
         n = len(case[names[0]])
@@ -645,15 +1283,17 @@ class P(Prop):
                     c[nm] = case[nm][:i] + case[nm][i + 1:]
                 if "feats" in case:
                     c["feats"] = {a: s[:i] + s[i + 1:] for a, s in case["feats"].items()}
-                if self._in_domain(c):
+                if self._in_domain(c) == self._in_domain(case):
                     yield c
-        if case["kind"] == "seq":
+        if kind == "seq":
             if case["feats"]:
                 for a in case["feats"]:
                     c = dict(case, feats={b: s for b, s in case["feats"].items() if b != a}, dims=[d for d in case["dims"] if d != a])
-                    if c["dims"]:
+                    if c["dims"] and case.get("how", "list") == "list":
                         yield c
-            if len(case["dims"]) > 1:
+                    elif a not in case["dims"]:
+                        yield dict(case, feats={b: s for b, s in case["feats"].items() if b != a})
+            if len(case["dims"]) > 1 and case.get("how", "list") in ("list", "str"):
                 for d in case["dims"]:
                     yield dict(case, dims=[e for e in case["dims"] if e != d])
         # simpler values
@@ -664,7 +1304,7 @@ class P(Prop):
                     if s[i] != nv and (s[i] is None or abs(s[i]) > 1 or s[i] != int(s[i])):
                         c = dict(case)
                         c[nm] = s[:i] + [nv] + s[i + 1:]
-                        if self._in_domain(c):
+                        if self._in_domain(c) == self._in_domain(case):
                             yield c
         if k["t"] == "list":
             w = k["w"]
@@ -673,31 +1313,47 @@ class P(Prop):
             for i in range(len(w)):
                 if w[i] != 1:
                     yield dict(case, k={"t": "list", "w": w[:i] + [1] + w[i + 1:]})
-        if case.get("sc") == "f" and k["t"] in ("list", "int", "dirac") + RATIONAL_KERNELS:
+        if case.get("sc") == "f" and k["t"] in ("list", "int", "dirac", "user") + RATIONAL_KERNELS and kind != "smooth":
             yield dict(case, sc="r")
 
     def _in_domain(self, case):
-        if case["kind"] in ("zeronorm", "short"):
+        kind = case["kind"]
+        if kind in ("zeronorm", "short", "badk", "zerow", "sw", "session"):
             return True
-        k = case.get("k", {"t": "gaussian", "p": case.get("w")})
-        w = shape_weights(k)
-        if case["kind"] == "feat":
+        if kind == "op":
+            allsig = dict({"x": case["x"], "y": case["y"], "z": case["z"]}, **case["feats"])
+            return domain_ok(self.op_weights(case), allsig[case["in"]])
+        k = case.get("k", {"t": "gaussian", "p": case.get("w")}) if kind != "smooth" else {"t": "gaussian", "p": case["w"]}
+        if k["t"] not in ("list", "int", "dirac", "feat") and support_of(k) < 1:
+            return False
+        w = self.kweights(dict(case, k=k))
+        if kind == "feat":
             return domain_ok(w, case["sig"])
+        if len(case["x"]) == 0:
+            return False
         allsig = dict({"x": case["x"], "y": case["y"], "z": case["z"]}, **case.get("feats", {}))
-        dims = case.get("dims", ["x", "y", "z"])
+        dims = case.get("dims", ["x", "y", "z"]) if kind != "smooth" else ["x", "y", "z"]
+        if any(d not in allsig for d in dims) or len(set(dims)) != len(dims):
+            return False
         if len(w) == 1:
-            return all(x is not None for d in dims for x in allsig[d])
-        return all(domain_ok(w, allsig[d]) for d in dims)
+            return k["t"] in ("list", "int") or all(x is not None for d in dims for x in allsig[d])
+        return sum(w) > 0 and all(domain_ok(w, allsig[d]) for d in dims)
 
     def mutate(self, case, rng):
-        if case["kind"] == "sw":
-            for p in self.WIDTHS:
-                yield dict(case, k=dict(case["k"], p=p))
+        kind = case["kind"]
+        if kind == "sw":
+            if "p" in case["k"]:
+                for p in self.WIDTHS:
+                    yield dict(case, k=dict(case["k"], p=p))
+            return
+        if kind in ("session", "op", "badk"):
             return
         for _ in range(20):
             c = dict(case)
             for nm in self._sig_names(case):
                 s = list(case[nm])
+                if not s:
+                    continue
                 i = rng.randrange(len(s))
                 s[i] = rng.choice([None, 0, 1, rng.randrange(-50, 50)])
                 c[nm] = s
